@@ -161,14 +161,19 @@ func k4(w *World, r *Report) {
 		return
 	}
 	var wT, rT types.Type
-	for _, c := range CallsIn(put) {
-		if isAnyJSON(c.Common(), "Marshal") {
-			wT = deref(ifaceOperand(c.Common().Args[0]).Type())
+	// in the accessor itself or in a helper it calls
+	for _, hf := range w.withModuleCallees(put, 2) {
+		for _, c := range CallsIn(hf) {
+			if isAnyJSON(c.Common(), "Marshal") && wT == nil {
+				wT = deref(ifaceOperand(c.Common().Args[0]).Type())
+			}
 		}
 	}
-	for _, c := range CallsIn(get) {
-		if isAnyJSON(c.Common(), "Unmarshal") {
-			rT = deref(ifaceOperand(c.Common().Args[1]).Type())
+	for _, hf := range w.withModuleCallees(get, 2) {
+		for _, c := range CallsIn(hf) {
+			if isAnyJSON(c.Common(), "Unmarshal") && rT == nil {
+				rT = deref(ifaceOperand(c.Common().Args[1]).Type())
+			}
 		}
 	}
 	if wT == nil || rT == nil {
